@@ -452,7 +452,8 @@ class LocalConcurrences:
             dtw_cc.wps_positivize(self._c_parts, self._wp,
                                   len(self.series1), len(self.series2),
                                   0, len(self.series1) + 1,
-                                  0, len(self.series2) + 1)
+                                  0, len(self.series2) + 1,
+                                  True)  # intersection (the whole matrix)
         else:
             wp = self._wp
             # Cells used by earlier matches are marked by negating them (all affinities are >= 0)
